@@ -302,6 +302,29 @@ def install(eng, check_tags=None):
     def _is_collector(eng_, st, args, kwargs):
         """is_collector(f, fut, responses, do_append, do_stop): f is partial(handle_complex_message, fut, responses, do_append, do_stop)."""
         f = args[0]
+        if isinstance(f, VFunc) and f.kind == "py" and f.closure is not None and len(f.node.args.args) == 1 and len(f.node.body) <= 2:
+            # the same collector written as a nested function:  def on_message(m): handle_complex_message(fut, responses, do_append, do_stop, m)
+            import ast as _ast
+            body = [b for b in f.node.body if not (isinstance(b, _ast.Expr) and isinstance(b.value, _ast.Constant))]      # (docstring)
+            call = body[0].value if len(body) == 1 and isinstance(body[0], (_ast.Expr, _ast.Return)) else None
+            par = f.node.args.args[0].arg
+            if isinstance(call, _ast.Call) and not call.keywords and len(call.args) == 5 and all(isinstance(a, _ast.Name) for a in call.args) \
+                    and call.args[4].id == par and isinstance(call.func, _ast.Name):
+                def look(name):
+                    oid = f.closure
+                    while oid is not None:
+                        fr = st.heap[oid]
+                        if name in fr.f:
+                            return fr.f[name]
+                        oid = fr.f.get("__parent__")
+                    return eng_.lookup_global(name, f.module, st)
+                try:
+                    callee = look(call.func.id)
+                    bound = [look(a.id) for a in call.args[:4]]
+                except Unsupported:
+                    callee, bound = None, []
+                if isinstance(callee, VFunc) and callee.kind == "py" and callee.qualname == "handle_complex_message":
+                    f = VFunc("partial", func=callee, args=bound, kwargs={})
         okk = (isinstance(f, VFunc) and f.kind == "partial" and isinstance(f.func, VFunc) and f.func.kind == "py"
                and f.func.qualname == "handle_complex_message" and len(f.args) == 4 and not f.kwargs)
         if not okk:
@@ -479,7 +502,8 @@ def install(eng, check_tags=None):
         if name == "cancelled_here":
             return VBool(any(ev[0] == "cancelled" for ev in st.events))
         if name == "passed_loop":
-            return VBool(any(t.startswith("loop#") for t in st.trace))
+            # the dispatch loop was entered, or (when it lives in a helper / was unrolled) a subscriber has already been called
+            return VBool(any(t.startswith("loop#") or ".loop#" in t for t in st.trace) or any(ev[0] == "cut" and ev[1] == "handler-call" for ev in st.events))
         if name == "n_cuts":
             return VInt(sum(1 for ev in st.events if ev[0] == "cut"))
         return None
@@ -894,6 +918,16 @@ def install(eng, check_tags=None):
         st.heap[v.oid] = HObj("hview", None, {"map": base.oid, "key": k})
         return ok(st, None)
     eng.hooks["setitem"] = h_setitem
+    prev_contains = eng.hooks.get("contains")
+
+    def h_contains(eng_, st, container, item):
+        o = st.heap.get(container.oid) if isinstance(container, VRef) else None
+        if o is not None and o.kind == "hmap":
+            return z3.Select(o.f["has"], class_key(eng_, st, item))          # `cls in self._message_handlers`
+        if o is not None and o.kind in ("hview", "sset"):
+            return z3.IsMember(box(eng_, st, item), set_contents(eng_, st, container))
+        return prev_contains(eng_, st, container, item) if prev_contains is not None else None
+    eng.hooks["contains"] = h_contains
 
     def set_contents(eng_, st, v):
         """ObjSet term of a set-like value (handler-table view, symbolic set, concrete set), None otherwise."""
